@@ -312,6 +312,15 @@ func ValueSweeps() []SweepCase {
 			ops := []Op{{Kind: OpAdd, D: 0, M1: 0}, {Kind: OpAdd, D: 1, M1: 1}, {Kind: OpAdd, D: 0, M1: 0}, {Kind: OpSMFAdd}}
 			out = append(out, SweepCase{cfg, al, ops, "meta-type-8bit", fmt.Sprintf("%02X", typ)})
 		}
+		// texts whose bytes a reader might want to tidy up: byte order marks in
+		// front, line ends and blanks at both ends, NUL bytes, for every text kind
+		for typ := byte(0x01); typ <= 0x09; typ++ {
+			for ti, txt := range []string{"\xEF\xBB\xBFtitle", "\xFE\xFFt", "\xFF\xFEt\x00", " title ", "title\r\n", "\ntitle", "title\x00", "\x00", "\t", "\xEF\xBB\xBF"} {
+				al := []Msg{{"note", []byte{0x93, 0x40, 0x41}}, {"text", smf.MetaUndefined(typ, []byte(txt))}}
+				ops := []Op{{Kind: OpAdd, D: 0, M1: 0}, {Kind: OpAdd, D: 1, M1: 1}, {Kind: OpAdd, D: 0, M1: 0}, {Kind: OpSMFAdd}}
+				out = append(out, SweepCase{cfg, al, ops, "text-contents", fmt.Sprintf("%02X/%d", typ, ti)})
+			}
+		}
 		// bursts: n events on one tick behind an event that carries a delta, three
 		// bursts in a row and one at the start of the track (whatever batches
 		// or counts the events of a tick sees every size up to 70 and the sizes
@@ -488,6 +497,17 @@ func ScalarSweeps(part, parts int, maxDelta uint64, f func(SweepCase)) {
 			ops = append(ops, Op{Kind: OpAdd, D: 0, M1: 3}, Op{Kind: OpSMFAdd})
 			f(SweepCase{Cfg{Ctor: 0, TF: smf.MetricTicks(960)}, alx, ops, "megabyte-events", fmt.Sprint(order)})
 		}
+		// a length of four digits behind a delta of four digits (every event with
+		// its widest prefix), for the three kinds that carry a length
+		for m := 0; m < 3; m++ {
+			for _, d := range []uint32{0x200000, 0x0FFFFFFF} {
+				ops := []Op{{Kind: OpAdd, D: 0, M1: 3}, {Kind: OpAdd, D: d, M1: m}, {Kind: OpAdd, D: 0, M1: 3}, {Kind: OpSMFAdd}}
+				if m == 2 {
+					continue // the text of 1.1 MB has a three-digit length
+				}
+				f(SweepCase{Cfg{Ctor: 0, TF: smf.MetricTicks(960)}, alx, ops, "megabyte-events", fmt.Sprintf("%d behind delta %X", m, d)})
+			}
+		}
 	}
 	// deltas whose base-128 digits are all combinations of a few digit values
 	// (an encoder of its own in the writer may get any one digit position wrong)
@@ -522,6 +542,9 @@ func ScalarSweeps(part, parts int, maxDelta uint64, f func(SweepCase)) {
 		lens = append(lens, b-2, b-1, b, b+1)
 	}
 	lens = append(lens, 5000, 20000)
+	// four-digit lengths whose base-128 digits all differ (a digit position
+	// written or read in the wrong place shows only then)
+	lens = append(lens, 0x200080, 0x204081, 0x3F8142)
 	for li := part; li < len(lens); li += parts {
 		n := lens[li]
 		p := make([]byte, n)
